@@ -9,6 +9,7 @@
 //! Each module exposes
 //!   pub fn generate(prop: &str, out: &mut Out, thorough: bool, seed: u64) -> bool   (true if it serves `prop`)
 //!   pub fn replay(toks: &[&str], out: &mut Out) -> bool                             (true if it knows the op)
+mod dec;
 mod label;
 mod util;
 
@@ -18,7 +19,7 @@ use util::*;
 type GenFn = fn(&str, &mut Out, bool, u64) -> bool;
 type ReplayFn = fn(&[&str], &mut Out) -> bool;
 
-const MODULES: &[(GenFn, ReplayFn)] = &[(label::generate, label::replay)];
+const MODULES: &[(GenFn, ReplayFn)] = &[(label::generate, label::replay), (dec::generate, dec::replay)];
 
 fn main() {
     // keep panic messages of caught panics off stderr
